@@ -36,12 +36,14 @@ class EnsembleSampler:
         self.acceptance_fraction = np.zeros(nwalkers)
 
     def _eval(self, z):
+        before = np.array(z, copy=True)
         if self.vectorize:
             val = self.log_prob_fn(z, *self.args, **self.kwargs)
         else:
             val = np.array([self.log_prob_fn(zi, *self.args, **self.kwargs) for zi in z])
+        self.last_input_mutated = not np.array_equal(before, z, equal_nan=True)
         for tap in list(TAPS):
-            tap(z, val, self)
+            tap(before, val, self)
         v = _to_np(val).astype(float).reshape(-1)
         if v.shape[0] != z.shape[0]:
             raise ValueError("log_prob_fn returned wrong number of values")
